@@ -332,6 +332,6 @@ def campaigns(tier):
                  describe="D0-D3 with sub-slot efforts, zones, cross-midnight shifts, project- and task-level ALAP"),
         Campaign("alap_chains", "hyp", evaluate=eval_project, strategy=lambda: gen.project_specs(PF_CHAINS), n=700 if q else 15000,
                  describe="forward projects with anchored task-level ALAP tasks that have predecessor chains (ALAP propagation)"),
-        Campaign("whole", "hyp", evaluate=eval_project, strategy=lambda: gen.project_specs(PF_WHOLE), n=700 if q else 15000,
+        Campaign("whole", "hyp", evaluate=eval_project, strategy=lambda: gen.project_specs(PF_WHOLE), n=2000 if q else 30000,
                  describe="whole-slot efforts, nesting, container edges; limited tasks generated but not judged"),
     ]
